@@ -75,6 +75,34 @@ def run_prop(prop, tier, seed):
             f2 = {k: v for k, v in f.items() if k != "_expect"}
             rep.violation(sig + ":" + (f2["out"] if f2["state"] == "ok" else f2["state"]), what,
                           dict(file=f2, ini=repr(cf.ini_for(f2, o["ctx"]) if o and "ctx" in o else None), call=call, result=result, expected_records=h["expect"]))
+    if prop == "C16":
+        # runs of N consecutive identical calls in one process, for every config file state: nothing may accumulate
+        N = 40 if tier == "quick" else 200
+        files, seenf = [], set()
+        for h in behs:
+            k = json.dumps(h["file"], sort_keys=True)
+            if k not in seenf:
+                seenf.add(k)
+                files.append(h["file"])
+        call = {"kind": "execve", "path": "p_norm", "argv": "a_two", "envp": "e_one"}
+        runs = [("r%d" % i, [(f, call, "ENOENT")] * N) for i, f in enumerate(files)]
+        ob = cf.run_hist(b, runs, b["root"] + "/runs")
+        for label, steps in runs:
+            o = ob.get(label, {})
+            st = o.get("steps", {})
+            if len(st) < N or "pre" not in st.get(1, {}) or "pre" not in st.get(N - 1, {}):
+                if o.get("child", {}).get("signal"):
+                    rep.violation("repeat-crash", "%d consecutive calls under %r: the process died with signal %s" % (N, steps[0][0], o["child"]["signal"]), dict(file=steps[0][0]))
+                else:
+                    rep.assumptions.append("repeat run %s incomplete" % label)
+                continue
+            a, z = st[1]["pre"][0]["snap"], st[N - 1]["pre"][0]["snap"]
+            for key in ("fds", "heap"):
+                if a[key] != z[key]:
+                    f0 = steps[0][0]
+                    rep.violation("accumulates:%s:%s" % (key, f0["out"] if f0["state"] == "ok" else f0["state"]),
+                                  "%d consecutive identical calls: %s before call 2 is %r, before call %d it is %r" % (N, key, a[key], N, z[key]), dict(file=f0, calls=N))
+        rep.cov["repeat_runs"] = [len(runs), N]
     rep.cov["traces_validated_against_impl"] = len(items)
     rep.cov["evaluations"] = len(items)
     rep.cov["distinct_nontrivial"] = len(nontriv)
